@@ -31,6 +31,16 @@ CHECKS = {
         note='proved: history/accounting theorems (unbounded in chunk count, order, store size) and per-axis kernels. Tied by correspondence: '
              'observed assignment histories vs the scatter model; numpy provenance oracle for the N-d routing. ' + TB,
         technique='Lean 4 proof (List.Perm.foldl_eq, induction) + translator bridge for kernels + observed-history correspondence'),
+    'C16': dict(
+        text='Lean 4 theorems over an arbitrary commutative ring and coefficient lists of any length: Horner evaluation, the in-place '
+             'triangular re-centring transcribed sweep by sweep (eval (shift t0 a p) t = eval p (a t - t0), including the t0 = 0, a = 1 and '
+             'single-coefficient fast paths), re-scaling, derivative arrays and evaluations of every order linked to Mathlib '
+             'Polynomial.derivative, order minimisation, the two-variable shift on rectangular arrays and the componentwise vector case. '
+             'The model runs in exact rationals and is compared with sarpy on generated inputs under a running-error bound.',
+        design='DESIGN.md 6/C16',
+        note='proved over commutative rings (hence R and Q); float64 rounding of the implementation is not proved - exact-rational '
+             'correspondence with an error bound; loop->recursion step of the triangular update validated by that correspondence. ' + TB,
+        technique='Lean 4 proof (induction over coefficient lists, Mathlib Polynomial) + exact-rational correspondence'),
 }
 
 
